@@ -9,6 +9,13 @@ CLAIMS = {
  "C01": ("TLA+ spec (Whirlpool.tla) model-checked by TLC at toy scale (Solvent, NoFreeLunch over all interleavings) + TLC trace validation "
          "(WpTrace.tla) of recorded executions of the real program: Solvent/NoFreeLunch after every instruction, drain sequences must succeed",
          "Exhaustive for the toy instance (bounded operations); sampled (seeded random histories) at full scale. The specification is the oracle in both.", "4 C01"),
+ "C02": ("TLC checks StepOK(x, Step(x)) for every input tuple of a toy domain (MC_SwapStep, exhaustive) + TLC evaluates the StepOK contract (exact big-integer "
+         "curve amounts, rounding direction, budget exhaustion, one-price-unit maximality) on every successful compute_swap call of a boundary grid and of random inputs, "
+         "and on every swap step recorded in histories of the real program",
+         "the full-scale input space is sampled (boundary grid from the case analysis of token_math.rs + seeded random), not enumerated", "4 C02"),
+ "C09": ("TLC evaluates TickMathOK on the recorded tick->sqrt-price table (monotone, endpoints, ratio within 2^-32) and the inverse contract on every tick price, "
+         "one unit either side and random interior prices; thorough tier enumerates all 887273 ticks (exhaustive=true there)",
+         "a contract over a pure function: the specification contributes the oracle, not exploration", "4 C09"),
  "C03": ("TLC model checking of SwapBounds as an action property on the toy instance + trace validation of every successful swap (v1, v2, "
          "transfer-fee mints) of recorded histories against SwapBounds evaluated on balance deltas", "as C01", "4 C03"),
  "C05": ("TLC model checking of LiqSum/TickSums/TickInit on the toy instance + the same invariants evaluated by TLC on the projected state after every "
